@@ -1,4 +1,4 @@
 SPECIFICATION TSpec
-INVARIANTS C03File C03Step
+INVARIANTS C03File C03Step C03Single
 POSTCONDITION Accepted
 CHECK_DEADLOCK FALSE
